@@ -40,6 +40,18 @@ Sweeps (oracle by construction, real code only, the same on every seed apart fro
     x RE-ENTERED renderings: every logging call -- before the exit and in the finally bodies a pending return / exception
     passes -- renders the same compiled template (and sub-templates) to its end with another value; each rendering must
     return its own value / text and render its own logging calls (a pending outcome belongs to the call, not to the tag).
+  * sweep_handlers: EVERY exception class Python defines below Exception (read off `builtins`: 58 classes incl. the OSError /
+    Warning families, RecursionError, MemoryError, StopIteration, SyntaxError ...), a user class and a user class of that class
+    below each, a class mixing each into another hierarchy (229 classes) x 18 ways the try body meets the exception
+    (dtml-raise by name / type= / expr, failing name / call / condition / let value / loop source, raised by an inner
+    handler / else / finally, through an inner finally, past inner non-matching handlers, sub-template, loop, with) x ~18
+    forms of handler list built from Python's own MRO (own name, each base up to Exception, BaseException, bare, misses
+    first, base before own name, multi-name, subclass names only, look-alike names only, ...) x else / no else x template
+    classes: the first matching handler's text with error_type = the class name and error_value THE exception (class
+    identity, args), nothing else rendered, error_type unbound afterwards; or the very exception propagates.
+The random programs (model + reference) and the histories draw from the same class tree: in 40 % of them handler names, the
+classes dtml-raise names / computes and the classes callables fail with come from ONE branch of it (a user class and all
+above it); the model gets the built-in classes with their bases in its class table.
 """
 import json
 
@@ -104,6 +116,58 @@ TWINS = {
 HIST_POOL = sorted(set(RAISE_BY_EXPR + FAULT_CLASSES + ['RuntimeError', 'ZeroDivisionError'])) + sorted(TWINS)
 HIST_HANDLER_NAMES = HANDLER_NAMES + ['Conflict', 'Conflict', 'Stale', 'NotFound', 'BadRequest']
 
+
+# EVERY exception class Python itself defines (read off the `builtins` module, not off the library): all classes below
+# Exception that take one message argument and print it (58 of 62: ArithmeticError .. ZeroDivisionError, the OSError
+# and Warning families, RecursionError / MemoryError / StopIteration / SyntaxError ...), each with its bases as Python
+# reports them.  Nothing in the property depends on WHICH class is raised: a handler is chosen by the names of the class
+# and of its bases.  Below every one of them: a user class and a user class of that user class (3 deep below the
+# built-in's own base, e.g. RuntimeError > RecursionError > MyRecursionError > MyRecursionErrorChild), and a class that
+# mixes it into proggen's hierarchy (Mixed<B>(E1, B)).  Keys as in TWINS: 'Name/Base'.
+def _wide_builtins():
+    import builtins
+    out = {}
+    for n in sorted(vars(builtins)):
+        c = getattr(builtins, n)
+        if not (isinstance(c, type) and issubclass(c, Exception) and c.__name__ == n):
+            continue        # (aliases such as IOError / EnvironmentError are OSError itself: one class, one name)
+        try:
+            e = c('m')
+            if not (str(e) == 'm' or (isinstance(e, KeyError) and e.args == ('m',))):
+                continue
+        except Exception:  # noqa: UnicodeDecodeError, ExceptionGroup want other arguments
+            continue
+        out[n] = c
+    return out
+
+
+WIDE_BUILTINS = _wide_builtins()
+WIDE_USER = {}
+for _n, _c in WIDE_BUILTINS.items():
+    if _n == 'Exception':
+        continue
+    _u = _mk('My' + _n, _c)
+    WIDE_USER['My%s/%s' % (_n, _n)] = _u
+    WIDE_USER['My%sChild/My%s' % (_n, _n)] = _mk('My%sChild' % _n, _u)
+    WIDE_USER['Mixed%s/E1+%s' % (_n, _n)] = _mk('Mixed' + _n, proggen.E1, _c)
+WIDE_KEYS = sorted(WIDE_BUILTINS) + sorted(WIDE_USER)
+# the class table handed to the Lean model with every program: proggen's + every built-in class with its bases
+WIDE_TABLE = proggen.class_table() + [[_n, [b.__name__ for b in _c.__bases__]] for _n, _c in sorted(WIDE_BUILTINS.items())
+                                      if _n not in proggen.CLASSES]
+
+
+def mro_names(c):
+    """the names a handler may use for class c: its own and those of all its bases up to Exception (Python's own MRO)"""
+    return [k.__name__ for k in c.__mro__ if k not in (BaseException, object)]
+
+
+def family_of(r):
+    """one branch of the class tree: a (user) class and everything above it; (keys of the classes, their names)"""
+    leaf = r.choice(sorted(WIDE_USER))
+    c = WIDE_USER[leaf]
+    keys = [k for k in WIDE_KEYS if issubclass(c, cls_of(k))]
+    return keys, mro_names(c)
+
 # LEFT OUT (a violation on the unchanged library, reported, not hidden): `<dtml-raise expr="c">` where c is a class whose
 # __name__ is also the name of a built-in or zExceptions exception (NotFound, BadRequest, KeyError, ...) does not raise
 # the computed class c but the built-in / zExceptions class of that name (DT_Raise.render passes the evaluated class
@@ -122,8 +186,14 @@ def _upgraded_by_name(key):
 
 
 def cls_of(key):
-    """class key ('E2', 'NotFound/KeyError', ...) -> the Python class"""
-    return TWINS[key] if key in TWINS else proggen.CLASSES[key][0]
+    """class key ('E2', 'NotFound/KeyError', 'RecursionError', 'MyMemoryError/MemoryError', ...) -> the Python class"""
+    if key in TWINS:
+        return TWINS[key]
+    if key in WIDE_USER:
+        return WIDE_USER[key]
+    if key in proggen.CLASSES:
+        return proggen.CLASSES[key][0]
+    return WIDE_BUILTINS[key]
 
 
 def cls_name(key):
@@ -131,12 +201,13 @@ def cls_name(key):
 
 
 SAME_NAME = {}
-for _k in HIST_POOL:
+for _k in HIST_POOL + [_k for _k in WIDE_KEYS if _k not in HIST_POOL]:
     SAME_NAME.setdefault(cls_name(_k), []).append(_k)
 # classes that may be bound to the names dtml-raise evaluates
 EXPR_POOL = [_k for _k in HIST_POOL if not (RAISE_EXPR_RENAMES_CLASS and _upgraded_by_name(_k))]
 EXPR_TWINS = [_k for _k in EXPR_POOL if _k in TWINS]
-KEY_OF = {id(cls_of(_k)): _k for _k in HIST_POOL}
+KEY_OF = {id(cls_of(_k)): _k for _k in WIDE_KEYS}
+KEY_OF.update({id(cls_of(_k)): _k for _k in HIST_POOL})
 
 
 class Ret(Exception):
@@ -302,7 +373,8 @@ class Ref:
         return n if n in self.ns else None
 
     def blocks(self, bs, hst):
-        return ''.join(self.blk(b, hst) for b in bs)
+        # (a list, not a generator: inside a generator Python turns a StopIteration that a block raises into RuntimeError)
+        return ''.join([self.blk(b, hst) for b in bs])
 
     def blk(self, b, hst):
         k = b[0]
@@ -332,7 +404,7 @@ class Ref:
             seq = self.value(b[1][1], hst)['l']
             if not seq:
                 return self.blocks(b[4], hst) if b[4] is not None else ''
-            return ''.join(self.blocks(b[3], hst) for _ in seq)
+            return ''.join([self.blocks(b[3], hst) for _ in seq])
         if k == 'with':
             self.value(b[1][1], hst)
             return self.blocks(b[4], hst)
@@ -366,9 +438,8 @@ class Ref:
         if k == 'raise':
             _, cls, e, body = b
             if e is None:
-                c = proggen.CLASSES.get(cls, (None,))[0] if cls in RAISE_BY_NAME else None
-                if c is None:
-                    c = RuntimeError
+                # the class Python knows by that name, else RuntimeError
+                c = WIDE_BUILTINS.get(cls, RuntimeError)
             else:
                 c = cls_of(self.ns[e[1]]['x'])
                 self.note(b, c, None)
@@ -466,8 +537,12 @@ def gen_handlers(g, depth):
         body = section(g, depth - 1, 1)
         if body and r.random() < 0.6:
             body.append(['var', ['n', r.choice(['error_type', 'error_value'])], False, None, None])
+        fam = getattr(g, 'family', None)
         if i == n - 1 and r.random() < 0.25:
             hs.append([[''], body])
+        elif fam and r.random() < 0.5:
+            # names from one branch of Python's own class tree (and of user classes below it)
+            hs.append([r.sample(fam[1], min(len(fam[1]), r.choice([1, 1, 2]))), body])
         else:
             hs.append([r.sample(HIST_HANDLER_NAMES if getattr(g, 'hist', False) else HANDLER_NAMES,
                                 r.choice([1, 1, 1, 2])), body])
@@ -521,6 +596,12 @@ def gen_block(g, depth):
         body = [['lit', r.choice(['m1', 'msg two', ''])]] if k == 'raise0' or r.random() < 0.6 else gen_blocks(g, depth - 1, 1)
         if getattr(g, 'in_loop', 0) and r.random() < 0.7:
             return ['raise', 'exc_cls', ['name', 'it_item'], body]
+        fam = getattr(g, 'family', None)
+        if fam and r.random() < 0.4:
+            if getattr(g, 'hist', False) and r.random() < 0.5:
+                return ['raise', 'exc_cls', ['name', r.choice(['clsw', 'clsw2'])], body]
+            # by name: the built-in classes of the branch (a user class has no name dtml-raise could look up: RuntimeError)
+            return ['raise', r.choice([n for n in fam[1] if n in WIDE_BUILTINS]), None, body]
         if r.random() < (0.35 if getattr(g, 'hist', False) else 0.6):
             return ['raise', r.choice(RAISE_BY_NAME), None, body]
         return ['raise', 'exc_cls', ['name', r.choice(['cls1', 'cls2', 'cls3', 'ValueError', 'LookupError'])], body]
@@ -636,6 +717,8 @@ class G:
 
 def gen_case(r, depth):
     g = G(r)
+    if r.random() < 0.4:
+        g.family = family_of(r)
     ns = {'f': {'f': 1, 'r': {'s': 'F'}}, 'g': {'f': 2, 'r': 3}, 'h': {'f': 3, 'r': None},
           'v1': {'s': 'one'}, 'v2': 2, 't1': 1, 'f0': 0,
           'seq2': {'l': [{'o': 1, 'a': [['w', 1]]}, {'o': 2, 'a': [['w', 2]]}]}, 'seq0': {'l': []},
@@ -656,7 +739,7 @@ def gen_case(r, depth):
         'templates': [{'blocks': expand(main), 'globals': [], 'vars': [], 'source': print_blocks(main)},
                       {'blocks': expand(sub), 'globals': [], 'vars': [], 'source': print_blocks(sub)}],
         'main': 0, 'clients': [], 'mapping': [], 'kw': [[k, v] for k, v in ns.items()],
-        'classes': proggen.class_table(), 'denied': [], 'guard': False, 'utf8': True,
+        'classes': WIDE_TABLE, 'denied': [], 'guard': False, 'utf8': True,
     }
     return case, ns
 
@@ -735,6 +818,12 @@ def check(res, items, have_driver):
         if not same and handed_through(exp, got):
             same = True
             res.count('text_result_or_message_is_one_undecoded_bytes_piece(C19)')
+        # (proggen.run_impl records a RecursionError that leaves the call without its message -- it cannot tell one raised
+        # by a template from CPython's own; the class is compared here, the message in the histories and the handler sweep)
+        rec_nomsg = got == {'raise': 'RecursionError', 'msg': ''} and exp.get('raise') == 'RecursionError'
+        if not same and rec_nomsg:
+            same = True
+            res.count('recursionerror_left_the_call:message_not_recorded_by_run_impl')
         src = c['templates'][0]['source']
         count_returns(res, exp, c)
         res.nt((features(src), plan[0] != (), 'raise' in got, got.get('raise')))
@@ -747,7 +836,8 @@ def check(res, items, have_driver):
                                     'what': 'Python-semantics reference gives %r with calls %r; the engine gives %r with calls %r'
                                             % (exp, exp_log, got, got_log)})
         if m is not None:
-            d = interp.compare(impl, m)
+            d = interp.compare(dict(impl, result=m['result']) if rec_nomsg and m['result'].get('raise') == 'RecursionError'
+                               else impl, m)
             if d == 'oom':
                 res.count('outside_model')
                 continue
@@ -778,6 +868,7 @@ def gen_items(r, n):
 # --------------------------------------------------------------------------- histories on ONE compiled template
 
 CLASS_SLOTS = ['cls1', 'cls2', 'cls3', 'ValueError', 'LookupError']
+WIDE_SLOTS = ['clsw', 'clsw2']      # bound to classes of ONE branch of Python's class tree (built-in or user classes below)
 OTHER_VALUES = [6, -1, {'s': 'other'}, {'s': ''}, None, False, True, {'l': [2]}, {'l': []}, {'d': [['z', 0]]},
                 {'o': 78, 'a': [['p', 2]]}, {'t': [1, {'s': 'b'}]},
                 # (histories are not run on the model: also types it has not)
@@ -805,18 +896,22 @@ def twin_of(r, key, pool=None):
     return r.choice(alt) if alt else key
 
 
-def gen_clsseq(r):
+def gen_clsseq(r, fam=None):
     """1..3 classes to loop over; often two DISTINCT classes of one name follow each other within the same rendering"""
-    ks = [pick_class(r) for _ in range(r.randint(1, 3))]
+    ks = [r.choice(fam[0]) if fam and r.random() < 0.4 else pick_class(r) for _ in range(r.randint(1, 3))]
     if r.random() < 0.5:
         ks.insert(r.randrange(len(ks)) + 1, twin_of(r, ks[0]))
     return {'l': [{'x': k, 'm': ''} for k in ks]}
 
 
-def mutate_ns(r, ns):
+def mutate_ns(r, ns, fam=None):
     """the data of the next rendering: what was changed is reported by kind"""
     ns = dict(ns)
     kinds = set()
+    if fam and r.random() < 0.5:
+        # another class of the same branch of the class tree (above or below the one bound before)
+        ns[r.choice(WIDE_SLOTS)] = {'x': r.choice(fam[0]), 'm': ''}
+        kinds.add('branch')
     how = r.choice(['twin', 'twin', 'twin', 'rebind', 'values', 'mixed', 'same'])
     if how in ('twin', 'mixed'):
         for n in CLASS_SLOTS:
@@ -829,7 +924,7 @@ def mutate_ns(r, ns):
         for n in r.sample(CLASS_SLOTS, r.randint(1, 3)):
             ns[n] = {'x': pick_class(r), 'm': ''}
         if r.random() < 0.5:
-            ns['clsseq'] = gen_clsseq(r)
+            ns['clsseq'] = gen_clsseq(r, fam)
         kinds.add('rebind')
     if how in ('values', 'mixed'):
         for n in r.sample(sorted(RET_VALUES) + sorted(MAIN_RET_VALUES) + ['v1', 'v2', 'f', 'g', 't1', 'f0'], r.randint(1, 5)):
@@ -854,13 +949,18 @@ def mutate_ns(r, ns):
 def gen_history(r, depth):
     g = G(r)
     g.hist = True
+    fam = family_of(r)
+    if r.random() < 0.45:
+        g.family = fam
     ns = {'f': {'f': 1, 'r': {'s': 'F'}}, 'g': {'f': 2, 'r': 3}, 'h': {'f': 3, 'r': None},
           'v1': {'s': 'one'}, 'v2': 2, 't1': 1, 'f0': 0,
           'seq2': {'l': [{'o': 1, 'a': [['w', 1]]}, {'o': 2, 'a': [['w', 2]]}]}, 'seq0': {'l': []},
           'wobj': {'o': 3, 'a': [['w', 3]]}, 'sub0': {'T': 1},
-          'clsseq': gen_clsseq(r)}
+          'clsseq': gen_clsseq(r, getattr(g, 'family', None))}
     for n in CLASS_SLOTS:
         ns[n] = {'x': pick_class(r), 'm': ''}
+    for n in WIDE_SLOTS:
+        ns[n] = {'x': r.choice(fam[0]), 'm': ''}
     ns.update(RET_VALUES)
     ns.update(MAIN_RET_VALUES)
     main = gen_blocks(g, depth, 3)
@@ -874,7 +974,7 @@ def gen_history(r, depth):
     for i in range(r.choice([2, 3, 3, 4])):
         kinds = set()
         if i:
-            ns, kinds = mutate_ns(r, ns)
+            ns, kinds = mutate_ns(r, ns, getattr(g, 'family', None))
         ref = Ref(ns, subs, (), 'ValueError')
         try:
             ref.blocks(subs[0], [])
@@ -886,6 +986,10 @@ def gen_history(r, depth):
                 # the same invocation fails again, with another class of the same name
                 plan = (prev_plan[0], twin_of(r, prev_plan[1], HIST_POOL))
                 kinds.add('twin-fault')
+            elif getattr(g, 'family', None) and r.random() < 0.5:
+                # a callable fails with a class of the branch the handlers name
+                plan = ((r.randrange(ref.calls),), r.choice(fam[0]))
+                kinds.add('branch-fault')
             else:
                 plan = ((r.randrange(ref.calls),), pick_class(r, HIST_POOL))
         prev_plan = plan
@@ -997,7 +1101,7 @@ def brief_steps(steps):
     for s in steps:
         ns = s['ns']
         if prev is None:
-            data = {k: short(ns[k]) for k in CLASS_SLOTS + ['clsseq', 'v1', 'v2', 't1', 'f0', 'f', 'g'] + sorted(RET_VALUES)}
+            data = {k: short(ns[k]) for k in CLASS_SLOTS + WIDE_SLOTS + ['clsseq', 'v1', 'v2', 't1', 'f0', 'f', 'g'] + sorted(RET_VALUES)}
         else:
             data = {k: short(v) for k, v in ns.items() if not strict_eq(prev[k], v)}
         prev = ns
@@ -1563,6 +1667,198 @@ def sweep_scopes(res, tier, r):
     return n
 
 
+# --------------------------------------------------------------------------- sweep: every class x every way to raise x handlers
+#
+# Oracle by construction (real code only).  One try block whose body is left by an exception of class c -- EVERY class of
+# WIDE_KEYS: all built-in exception classes Python defines, a user class / a user class of a user class below each, a class
+# mixing each into another hierarchy -- raised in every way a template can meet it (dtml-raise by name / by expression,
+# a failing name / call / condition / let value, an inner handler / else / finally body, through an inner finally, past an
+# inner try whose handlers do not match, inside a sub-template, a loop, a with), against every FORM of handler list built
+# from Python's own MRO of c: its own name, the name of each base up to Exception, bare, misses first, a base before the
+# own name (the first match wins), multi-name handlers, only non-matching names, only names of SUBCLASSES of c, only
+# look-alike names; with and without an else section.  Expected: if some handler names c or a base of c (or is bare), the
+# text is the FIRST such handler's output with error_type = c.__name__ and error_value = str(c(message)), the body's
+# output and every other handler / the else are not rendered, error_type is unbound after the tag; else the call raises
+# THE class c (identity) with the message.  The logging calls are those Python control flow runs.
+
+# (how dtml-var PRINTS an exception object is not this property's subject: the handler hands error_value itself to the
+# caller's `seen`, which compares class identity and arguments)
+HSWEEP_H = '[<dtml-call expr="mark(\'h\')"><dtml-var error_type>|<dtml-call expr="seen(error_value)">|' \
+           '<dtml-if "error_type in error_tb">tb</dtml-if>]'
+HSWEEP_W = '{N}WRONG<dtml-var error_type>'
+HSWEEP_OUTER = 'A<dtml-try>b{P}{X}{N}%s</dtml-try>Z|<dtml-var error_type missing="NOERR">'
+HSWEEP_WAYS = [
+    # (name, text, only for classes dtml-raise can name)
+    ('raise-by-name', '{P}<dtml-raise {C}>{M}</dtml-raise>{N}', True),
+    ('raise-by-name-attr', '<dtml-raise type="{C}">{M}</dtml-raise>{N}', True),
+    ('raise-by-expr', '{P}<dtml-raise expr="cls">{M}</dtml-raise>{N}', False),
+    ('raise-by-expr-item', '<dtml-raise expr="classes[0]">{M}</dtml-raise>{N}', False),
+    ('failing-name', 'x<dtml-var boom>{N}', False),
+    ('failing-call', '<dtml-call expr="boom()">{N}', False),
+    ('failing-condition', '<dtml-if expr="boom()">{N}<dtml-else>{N}</dtml-if>{N}', False),
+    ('failing-let-value', '<dtml-let zz="boom()">{N}</dtml-let>{N}', False),
+    ('failing-loop-source', '<dtml-in expr="boom()">{N}<dtml-else>{N}</dtml-in>{N}', False),
+    ('inner-handler-raises', '<dtml-try><dtml-raise KeyError>k</dtml-raise><dtml-except>{P}<dtml-raise expr="cls">{M}'
+                             '</dtml-raise>{N}</dtml-try>{N}', False),
+    ('inner-else-raises', '<dtml-try>{P}<dtml-except>{N}<dtml-else><dtml-var boom>{N}</dtml-try>{N}', False),
+    ('through-inner-finally', '<dtml-try>{P}<dtml-var boom>{N}<dtml-finally>{F}</dtml-try>{N}', False),
+    ('inner-finally-raises', '<dtml-try>{P}<dtml-finally>f<dtml-var boom>{N}</dtml-try>{N}', False),
+    ('inner-finally-replaces-pending', '<dtml-try><dtml-raise KeyError>k</dtml-raise><dtml-finally>{P}<dtml-var boom>{N}'
+                                       '</dtml-try>{N}', False),
+    ('past-inner-handlers', '<dtml-try>{P}<dtml-var boom>{N}<dtml-except {O1} {O2}>{N}<dtml-else>{N}</dtml-try>{N}', False),
+    ('sub-template', '{P}<dtml-var sub>{N}', False),
+    ('in-loop', '<dtml-in three>{P}<dtml-var boom>{N}</dtml-in>{N}', False),
+    ('in-with', '<dtml-with holder>{P}<dtml-call expr="boom()">{N}</dtml-with>{N}', False),
+]
+HSWEEP_MESSAGES = ['boom', '', 'two words', 'café']
+_HS_SUBNAMES = {}
+
+
+def hsweep_forms(key):
+    """the handler-list forms for class `key`: [(form name, [(names, matches?)], matched?)]; the first matching handler
+    is the one marked True"""
+    c = cls_of(key)
+    names = mro_names(c)
+    own = names[0]
+    # names that are neither c's nor a base's: two unrelated built-ins, and names of SUBCLASSES of c
+    others = [n for n in ('KeyError', 'TypeError', 'OSError', 'ArithmeticError') if n not in names]
+    o1, o2 = others[0], others[1]
+    if not _HS_SUBNAMES:
+        for k in WIDE_KEYS:
+            for b in cls_of(k).__mro__[1:]:
+                _HS_SUBNAMES.setdefault(b, []).append(cls_name(k))
+    subs = [n for n in _HS_SUBNAMES.get(c, []) if n not in names][:3] or [own + 'Child']
+    forms = [('own-name', [([own], True)])]
+    for i, b in enumerate(names[1:]):
+        forms.append(('base-name-%d-of-%d' % (i + 1, len(names) - 1), [([b], True)]))
+    forms += [
+        ('bare', [([''], True)]),
+        ('miss-then-own', [([o1], False), ([own], True)]),
+        ('miss-miss-then-root', [([o1], False), ([o2], False), ([names[-1]], True)]),
+        ('base-before-own:first-wins', [([names[-1]], True), ([own], False)]),
+        ('direct-base-before-bare', [([names[min(1, len(names) - 1)]], True), ([''], False)]),
+        ('own-before-bare', [([own], True), ([''], False)]),
+        ('multi-name-hit', [([o1, names[len(names) // 2]], True), ([''], False)]),
+        ('multi-name-miss-then-bare', [([o1, o2], False), ([''], True)]),
+        ('subclass-names-then-own', [(subs, False), ([own], True)]),
+        ('unmatched', [([o1], False), ([o2], False)]),
+        ('only-subclass-names', [(subs, False)]),
+        ('only-look-alike-names', [([own + 'x', own[:-1], own.lower()], False), (['Super' + names[-1]], False)]),
+        ('BaseException-name', [([o1], False), (['BaseException'], True)]),
+    ]
+    return [(n, hs, any(m for _, m in hs)) for n, hs in forms], (o1, o2)
+
+
+def hsweep_one(res, key, way, form, with_else, msg, channel, klass):
+    c = cls_of(key)
+    (fname, hs, matched), (o1, o2) = form
+    hsrc = ''
+    seen = False
+    for names, m in hs:
+        hsrc += '<dtml-except %s>%s' % (' '.join(names), HSWEEP_H if m and not seen else HSWEEP_W)
+        seen = seen or m
+    if with_else:
+        hsrc += '<dtml-else>{N}ELSE'
+    wtext = way[1].replace('{C}', c.__name__).replace('{M}', msg).replace('{O1}', o1).replace('{O2}', o2)
+    subs = {}
+    if way[0] == 'sub-template':
+        subs['sub'] = 's<dtml-var boom>never'
+    src, _, exp_log = sweep_build([('outer', HSWEEP_OUTER % hsrc), ('way', wtext + '{X}')], '', 'val')
+    log = []
+
+    def boom():
+        raise c(msg)
+    holder = _Holder()
+    holder.on_the_holder = 1
+    values = []
+    ns = {'mark': log.append, 'cls': c, 'classes': [c], 'boom': boom, 'three': [10, 20, 30], 'holder': holder,
+          'seen': values.append}
+    for n, text in subs.items():
+        ns[n] = compiled(text, klass)
+    label = {'raised_class': '%s %r' % (key, [b.__name__ for b in c.__mro__]), 'raised_by': way[0], 'handlers': fname,
+             'else_section': with_else, 'message': msg, 'data_passed_as': channel, 'template_class': klass, 'source': src,
+             'sub_templates': subs}
+    res.evaluations += 1
+    res.count('handler_sweep_renderings')
+    res.count('handler_sweep_' + ('handled' if matched else 'propagated'))
+    res.nt(('hsweep', way[0], fname.split('-of-')[0], with_else, key in WIDE_BUILTINS))
+    if matched:
+        expected = 'A[%s||tb]Z|NOERR' % c.__name__
+        exp_log = exp_log + ['h']
+    try:
+        got = call_template(compiled(src, klass), channel, ns)
+    except Exception as e:  # noqa
+        if matched:
+            res.oracle_fail.append({'case': label, 'what': 'a handler names the class or a base of it (or is bare): expected the '
+                                                           'text %r; the call raised %s: %.200s (log %r)'
+                                                           % (expected, type(e).__name__, e, log)})
+            return False
+        if type(e) is not c or e.args != (msg,):
+            res.oracle_fail.append({'case': label, 'what': 'no handler matches: the exception %s(%r) must propagate as it is; the '
+                                                           'call raised %s%r' % (c.__name__, msg, type(e).__name__, e.args)})
+            return False
+        if log != exp_log:
+            res.oracle_fail.append({'case': label, 'what': 'the right exception propagated, but the logging calls rendered were '
+                                                           '%r; Python control flow renders %r' % (log, exp_log)})
+            return False
+        return True
+    if not matched:
+        res.oracle_fail.append({'case': label, 'what': 'no handler names the class or a base of it: %s(%r) must propagate; the '
+                                                       'call returned %r (log %r)' % (c.__name__, msg, got, log)})
+        return False
+    if got != expected or log != exp_log:
+        res.oracle_fail.append({'case': label, 'what': 'expected the text %r with the logging calls %r (the first matching '
+                                                       'handler only, error_type / error_value bound inside it only); got %r '
+                                                       'with %r' % (expected, exp_log, got, log)})
+        return False
+    if len(values) != 1 or type(values[0]) is not c or values[0].args != (msg,):
+        res.oracle_fail.append({'case': label, 'what': 'inside the handler error_value must be the exception raised, %s(%r); it '
+                                                       'was %r' % (c.__name__, msg, values)})
+        return False
+    return True
+
+
+def sweep_handlers(res, tier, r):
+    """quick: every class x every way (forms rotating) and every class x every form (ways rotating); thorough: everything"""
+    chans = ['keywords', 'mapping', 'client']
+    n = bad = 0
+
+    def one(key, way, form, k):
+        nonlocal n, bad
+        if way[2] and key not in WIDE_BUILTINS:
+            return
+        klass = TEMPLATE_CLASSES[k % 3]
+        chan = chans[k % 2] if klass in RESTRICTED else chans[k % 3]
+        bad += not hsweep_one(res, key, way, (form, others), k % 3 == 0, HSWEEP_MESSAGES[k % len(HSWEEP_MESSAGES)], chan, klass)
+        n += 1
+    k = ki = 0
+    for key in WIDE_KEYS:
+        forms, others = hsweep_forms(key)
+        if tier == 'thorough':
+            for way in HSWEEP_WAYS:
+                for form in forms:
+                    k += 1
+                    one(key, way, form, k)
+        else:
+            # (a user class: every other way / form, alternating from class to class)
+            half = key not in WIDE_BUILTINS
+            ki += 1
+            for i, way in enumerate(HSWEEP_WAYS):
+                k += 1
+                if not half or (i + ki) % 2:
+                    one(key, way, forms[k % len(forms)], k)
+            for i, form in enumerate(forms):
+                k += 1
+                if not half or (i + ki) % 2:
+                    one(key, HSWEEP_WAYS[k % len(HSWEEP_WAYS)], form, k)
+            for _ in range(2):
+                k += 1
+                one(key, r.choice(HSWEEP_WAYS), r.choice(forms), r.randrange(10 ** 6))
+        if bad > 40:
+            return n
+    return n
+
+
 def gen_histories(r, n):
     return [gen_history(r, r.choice([1, 2, 2, 3, 3])) for _ in range(n)]
 
@@ -1596,6 +1892,11 @@ def run(res, tier, have_driver):
                  'error_type / error_value / error_tb, and RE-ENTERED: every logging call (incl. finally bodies under a pending '
                  'return / exception) renders the same compiled template again with another value; every rendering keeps its own '
                  'value, text and log')
+    res.rule += ('; CLASS TREE: programs and histories also draw handler names, raised / computed / failing classes from one '
+                 'branch of the tree of ALL built-in exception classes below Exception (58, with user classes 2 deep below '
+                 'each and mixed-in classes); HANDLER SWEEP: each of these 229 classes x 18 ways of raising it in a try body x '
+                 '~18 handler-list forms from its MRO x else: first matching handler only (error_value is the exception '
+                 'itself) or the very exception propagates')
     if RAISE_EXPR_RENAMES_CLASS:
         res.partial.append('left out (violation on the unchanged library, reported): <dtml-raise expr="c"> with c a class whose '
                            '__name__ is also a built-in / zExceptions exception name raises THAT class, not c '
@@ -1605,6 +1906,7 @@ def run(res, tier, have_driver):
     check_histories(res, gen_histories(common.rng('C14-hist'), 2500 if tier == 'quick' else 20000))
     sweep_returns(res, tier, common.rng('C14-sweep'))
     sweep_scopes(res, tier, common.rng('C14-scope'))
+    sweep_handlers(res, tier, common.rng('C14-handlers'))
     for i in (0, len(runs) // 2, len(runs) - 1):
         c, plan, impl, m = runs[i]
         res.sample({'source': c['templates'][0]['source'][:300], 'faults': list(plan[0]), 'result': impl['result']})
@@ -1630,6 +1932,7 @@ def search_more(res, tier):
     check_histories(res2, gen_histories(common.rng('C14-hist-more'), 6000))
     sweep_returns(res2, 'quick', common.rng('C14-sweep-more'), budget=6000)
     sweep_scopes(res2, 'quick', common.rng('C14-scope-more'))
+    sweep_handlers(res2, 'quick', common.rng('C14-handlers-more'))
     return res2.oracle_fail
 
 
